@@ -23,3 +23,5 @@ for d in /verif/seeded/*/; do
   echo "RESULT caught=$caught violations=$found of-which-no-input=$nf" >> $out
   echo "$id caught=$caught violations=$found no-input=$nf"
 done
+# leave nothing behind that was built or regenerated from a changed tree
+/verif/check --setup >/dev/null 2>&1
